@@ -157,7 +157,7 @@ CLAIMS = {
              'chain [move_agent; turn_agent] for any heading, visiting exactly the walk; bfsP soundness; hence can_walk_to = true yields a plan to the goal '
              'that never enters a blocking or terminating cell; by kernel evaluation of `leaves`: EVERY initial state of 20 walk-only parameter sets '
              '(shipped crossing/empty/memory/four-rooms-7x7 from the regenerated Gen/Configs.v, and small ones) is winnable; K1 has a kernel-checked '
-             'witness.  Not proved in general: teleport, dynamic_obstacles (a game against the random obstacles), memory_rooms (false: K1).  Everything (key-door, teleport, moving obstacles with all '
+             'witness; `teleport` (every shape >= 4x4: two L-shaped routes, jump through the telepods when both are blocked, under the shipped chain with the teleport step, for every resolution of the partner choice).  Not proved in general because false in general: dynamic_obstacles (K2), memory_rooms (K1).  Everything (key-door, teleport, moving obstacles with all '
              'random outcomes; larger rooms) is decided by best-first search over ALL histories of the REAL step function (all actions x all random '
              'outcomes via ScriptedRng) from the complete reset outcome tree when small, seeds otherwise; an exhausted search is an unwinnable state. '
              'Two genuine findings are recorded in known_findings.json (K1 memory_rooms, K2 dense dynamic_obstacles) with class predicates; any other '
